@@ -400,4 +400,187 @@ theorem reg_init (i : Nat) : ({} : St).reg i = none := by
 
 theorem rinv_init : RInv {} := ⟨inv_empty, fun i q hq => by rw [reg_init] at hq; simp at hq⟩
 
+/-! ## cycles as lists -/
+
+/-- the cells `xs` follow each other by `next`, the last one is followed by `e` -/
+def Lk (h : Heap) : List Nat → Nat → Prop
+  | [], _ => True
+  | a :: l, e => h.nx a = l.headD e ∧ Lk h l e
+
+theorem lk_append (h : Heap) (l1 l2 : List Nat) (e : Nat) :
+    Lk h (l1 ++ l2) e ↔ Lk h l1 (l2.headD e) ∧ Lk h l2 e := by
+  induction l1 with
+  | nil => simp [Lk]
+  | cons a l ih =>
+    simp only [List.cons_append, Lk, ih]
+    have : (l ++ l2).headD e = l.headD (l2.headD e) := by cases l <;> simp
+    rw [this]
+    constructor
+    · rintro ⟨h1, h2, h3⟩; exact ⟨⟨h1, h2⟩, h3⟩
+    · rintro ⟨⟨h1, h2⟩, h3⟩; exact ⟨h1, h2, h3⟩
+
+theorem lk_congr (h h' : Heap) (xs : List Nat) (e : Nat) (hc : ∀ a ∈ xs, h'.nx a = h.nx a) :
+    Lk h' xs e ↔ Lk h xs e := by
+  induction xs with
+  | nil => simp [Lk]
+  | cons a l ih =>
+    simp only [Lk]
+    rw [hc a (by simp), ih (fun b hb => hc b (by simp [hb]))]
+
+/-- `c` is a cycle of `next`, read from its first element -/
+structure Cyc (h : Heap) (c : List Nat) : Prop where
+  ne : c ≠ []
+  lk : Lk h c (c.headD 0)
+  nodup : c.Nodup
+  bound : ∀ i ∈ c, i < h.size
+
+theorem headD_snoc_append (cs : List Nat) (c : Nat) (as : List Nat) (d d' : Nat) :
+    ((cs ++ [c]) ++ as).headD d = (cs ++ [c]).headD d' := by cases cs <;> simp
+
+/-- exchange of successors between two different cycles merges them:
+`[a as…]`, `[cs… c]` become `[a cs… c as…]` -/
+theorem exchange_merge (h h' : Heap) (a c : Nat) (as cs : List Nat) (hsz : h'.size = h.size)
+    (hnx : ∀ k, h'.nx k = if k = a then h.nx c else if k = c then h.nx a else h.nx k)
+    (h1 : Cyc h (a :: as)) (h2 : Cyc h (cs ++ [c])) (hd : ∀ x ∈ a :: as, x ∉ cs ++ [c]) :
+    Cyc h' (a :: ((cs ++ [c]) ++ as)) := by
+  have n1 := h1.nodup; rw [List.nodup_cons] at n1
+  have n2 := h2.nodup; rw [List.nodup_append] at n2
+  have hac : a ≠ c := fun e => hd a (by simp) (by simp [e])
+  have l1 := h1.lk; simp only [List.headD_cons, Lk] at l1
+  have l2 := h2.lk; rw [lk_append] at l2
+  simp only [Lk, List.headD_cons, List.headD_nil, and_true] at l2
+  -- the head of the second cycle is `next c`
+  have hhead : (cs ++ [c]).headD 0 = h.nx c := l2.2.symm
+  refine ⟨by simp, ?_, ?_, ?_⟩
+  · simp only [List.headD_cons, Lk]
+    refine ⟨?_, ?_⟩
+    · rw [hnx, if_pos rfl, headD_snoc_append cs c as a 0, hhead]
+    · rw [lk_append, lk_append]
+      refine ⟨⟨?_, ?_⟩, ?_⟩
+      · rw [lk_congr h h' cs _ ?_]
+        · simpa using l2.1
+        · intro x hx
+          have hxa : x ≠ a := fun e => hd a (by simp) (by simp [← e, hx])
+          have hxc : x ≠ c := fun e => n2.2.2 x hx c (by simp) e
+          rw [hnx]; simp [hxa, hxc]
+      · simp only [Lk, List.headD_nil, and_true]
+        rw [hnx, if_neg hac.symm, if_pos rfl, l1.1]
+      · rw [lk_congr h h' as _ ?_]
+        · exact l1.2
+        · intro x hx
+          have hxa : x ≠ a := fun e => n1.1 (e ▸ hx)
+          have hxc : x ≠ c := fun e => hd x (by simp [hx]) (by simp [e])
+          rw [hnx]; simp [hxa, hxc]
+  · rw [List.nodup_cons, List.nodup_append]
+    refine ⟨?_, h2.nodup, n1.2, ?_⟩
+    · intro hm
+      rw [List.mem_append] at hm
+      rcases hm with hm | hm
+      · exact hd a (by simp) hm
+      · exact n1.1 hm
+    · intro x hx y hy e
+      exact hd y (by simp [hy]) (e ▸ hx)
+  · intro i hi
+    rw [hsz]
+    rw [List.mem_cons, List.mem_append] at hi
+    rcases hi with hi | hi | hi
+    · subst hi; exact h1.bound _ (by simp)
+    · exact h2.bound i hi
+    · exact h1.bound i (by simp [hi])
+
+/-- exchange of successors inside one cycle splits it:
+`[a m… c rest…]` becomes `[a rest…]` and `[m… c]` -/
+theorem exchange_split (h h' : Heap) (a c : Nat) (m rest : List Nat) (hsz : h'.size = h.size)
+    (hnx : ∀ k, h'.nx k = if k = a then h.nx c else if k = c then h.nx a else h.nx k)
+    (h1 : Cyc h (a :: ((m ++ [c]) ++ rest))) :
+    Cyc h' (a :: rest) ∧ Cyc h' (m ++ [c]) := by
+  have n1 := h1.nodup
+  rw [List.nodup_cons, List.nodup_append, List.nodup_append] at n1
+  obtain ⟨na, ⟨nm, _, nmc⟩, nr, nmr⟩ := n1
+  have nam : a ∉ m := fun hm => na (by simp [hm])
+  have nar : a ∉ rest := fun hm => na (by simp [hm])
+  have hac : a ≠ c := fun e => na (by simp [e])
+  have l1 := h1.lk
+  simp only [List.headD_cons, Lk] at l1
+  obtain ⟨la, l1⟩ := l1
+  rw [lk_append, lk_append] at l1
+  simp only [Lk, List.headD_cons, List.headD_nil, and_true] at l1
+  obtain ⟨⟨lm, lc⟩, lr⟩ := l1
+  -- next a = head of (m ++ [c]), next c = rest.headD a
+  have hna : h.nx a = (m ++ [c]).headD 0 := by
+    rw [la]; exact headD_snoc_append m c rest a 0
+  refine ⟨⟨by simp, ?_, ?_, ?_⟩, ⟨by simp, ?_, ?_, ?_⟩⟩
+  · simp only [List.headD_cons, Lk]
+    refine ⟨by rw [hnx, if_pos rfl, lc], ?_⟩
+    rw [lk_congr h h' rest _ ?_]
+    · exact lr
+    · intro x hx
+      have hxa : x ≠ a := fun e => nar (e ▸ hx)
+      have hxc : x ≠ c := fun e => nmr c (by simp) x hx e.symm
+      rw [hnx]; simp [hxa, hxc]
+  · rw [List.nodup_cons]; exact ⟨nar, nr⟩
+  · intro i hi; rw [hsz]; apply h1.bound
+    rw [List.mem_cons] at hi
+    rcases hi with hi | hi <;> simp [hi]
+  · rw [lk_append]
+    simp only [Lk, List.headD_cons, List.headD_nil, and_true]
+    refine ⟨?_, ?_⟩
+    · rw [lk_congr h h' m _ ?_]
+      · exact lm
+      · intro x hx
+        have hxa : x ≠ a := fun e => nam (e ▸ hx)
+        have hxc : x ≠ c := fun e => nmc x hx c (by simp) e
+        rw [hnx]; simp [hxa, hxc]
+    · rw [hnx, if_neg hac.symm, if_pos rfl, hna]
+  · rw [List.nodup_append]; exact ⟨nm, by simp, nmc⟩
+  · intro i hi; rw [hsz]; apply h1.bound
+    rw [List.mem_append, List.mem_singleton] at hi
+    rcases hi with hi | hi <;> simp [hi]
+
+/-- with `Inv`, the predecessor of the head of a cycle is its last element -/
+theorem cyc_pv_head (h : Heap) (hi : Inv h) (cs : List Nat) (c : Nat) (hc : Cyc h (cs ++ [c])) :
+    h.pv ((cs ++ [c]).headD 0) = c := by
+  have l := hc.lk
+  rw [lk_append] at l
+  simp only [Lk, List.headD_cons, List.headD_nil, and_true] at l
+  rw [← l.2]
+  exact hi.pn c (hc.bound c (by simp))
+
+/-- what `Join` does to `next` when it does anything: the successors of `r` and of `s.prev` are exchanged -/
+theorem join_nx (h : Heap) (hi : Inv h) (r s : Nat) (hr : r < h.size) (hs : s < h.size)
+    (h1 : r ≠ s) (h2 : h.nx r ≠ s) :
+    ∃ h', join h (some r) (some s) = .ok (h', some (h.nx r)) ∧ h'.size = h.size ∧ h'.vals = h.vals ∧ Inv h' ∧
+      ∀ k, h'.nx k = if k = r then h.nx (h.pv s) else if k = h.pv s then h.nx r else h.nx k := by
+  obtain ⟨h', p, e, i', sz, v, _⟩ := join_inv h hi r s hr hs
+  have hj : join h (some r) (some s) =
+      .ok ((((h.setNext r s).setPrev s r).setNext (h.pv s) (h.nx r)).setPrev (h.nx r) (h.pv s), some (h.nx r)) := by
+    simp [join, h1, h2]
+  rw [hj] at e
+  injection e with e; injection e with e1 e2
+  subst e1
+  refine ⟨_, hj, sz, v, i', ?_⟩
+  intro k
+  have hsp := hi.plt s hs
+  have hne : h.pv s ≠ r := fun e => h2 (by rw [← e, hi.np s hs])
+  simp only [nx_setPrev, nx_setNext, size_setNext, size_setPrev, hi.np s hs]
+  by_cases h3 : k = h.pv s
+  · simp [h3, hsp, hne]
+  · by_cases h4 : k = r <;> simp [h3, h4, hr, hne.symm]
+
+theorem pop_nx (h : Heap) (hi : Inv h) (r : Nat) (hr : r < h.size) (hc : h.pv r ≠ r) :
+    ∀ k, (pop h (some r)).nx k = if k = h.pv r then h.nx r else if k = r then h.nx (h.pv r) else h.nx k := by
+  intro k
+  have hrp := hi.plt r hr
+  simp only [pop, hc, ne_eq, not_false_eq_true, if_true, nx_setNext, nx_setPrev, size_setPrev, size_setNext,
+    hi.np r hr]
+  by_cases h1 : k = r
+  · have : r ≠ h.pv r := fun e => hc e.symm
+    simp [h1, hr, this]
+  · by_cases h2 : k = h.pv r <;> simp [h1, h2, hrp, hc]
+
+theorem exists_snoc (l : List Nat) (hl : l ≠ []) : ∃ cs c, l = cs ++ [c] := by
+  rcases List.eq_nil_or_concat l with h | ⟨cs, c, h⟩
+  · exact absurd h hl
+  · exact ⟨cs, c, by simpa using h⟩
+
 end MdsVerif.Proofs.Ring
